@@ -3,6 +3,8 @@
  *
  *   ratiop2  incr eb el eu pivtol pftol n {y x l u}*n        exact (mpq) instance, full ratio_res
  *   ratiop2f prec incr eb el eu pivtol pftol n {y x l u}*n   mpf instance at `prec` bits: status and row only
+ *   ratiod2  lvupper pivtol dftol n {zA dz cz vstat skip}*n  dual phase-II test, exact instance, full ratio_res
+ *   ratiod2f prec lvupper pivtol dftol n {zA dz cz vstat skip}*n   mpf instance: status and column only
  *
  * Basis position i holds column i (baz[i] = i, yjz.indx[k] = k); the entering column is column n.
  */
@@ -90,6 +92,63 @@ RATIO_P2 (mpq, mpq_t, set_q,
 	printf (" %d %d ", rs.lvstat, rs.boundch); put_q (rs.lbound); printf ("\n");)
 RATIO_P2 (mpf, mpf_t, set_f, printf ("res %d %d\n", rs.ratio_stat, rs.lindex);)
 
+/* dual phase II: position j of zA holds non-basic column j (nbaz[j] = j, zA.indx[k] = k) */
+#define RATIO_D2(T, SET, FULL)                                                                               \
+static void ratio_d2_##T (void)                                                                              \
+{                                                                                                            \
+	T##_lpinfo L, *lp = &L;                                                                                    \
+	T##_tol_struct tol;                                                                                        \
+	T##_count_struct cnt;                                                                                      \
+	T##_ratio_res rs;                                                                                          \
+	mpq_t q;                                                                                                   \
+	int lvu = tok_int (), n, i;                                                                                \
+	memset (lp, 0, sizeof (L));                                                                                \
+	memset (&cnt, 0, sizeof (cnt));                                                                            \
+	mpq_init (q);                                                                                              \
+	T##_EGlpNumInitVar (tol.pfeas_tol); T##_EGlpNumInitVar (tol.dfeas_tol); T##_EGlpNumInitVar (tol.pivot_tol); \
+	T##_EGlpNumInitVar (tol.szero_tol); T##_EGlpNumInitVar (tol.ip_tol); T##_EGlpNumInitVar (tol.id_tol);     \
+	T##_EGlpNumInitVar (rs.tz); T##_EGlpNumInitVar (rs.lbound); T##_EGlpNumInitVar (rs.ecoeff);               \
+	T##_EGlpNumInitVar (rs.pivotval); T##_EGlpNumInitVar (lp->upd.piv); T##_EGlpNumInitVar (lp->upd.dty);     \
+	lp->tol = &tol;                                                                                            \
+	lp->cnts = &cnt;                                                                                           \
+	tok_q (q); SET (tol.pivot_tol, q);                                                                         \
+	tok_q (q); SET (tol.dfeas_tol, q);                                                                         \
+	n = tok_int ();                                                                                            \
+	lp->zA.coef = T##_EGlpNumAllocArray (n + 1);                                                               \
+	lp->dz = T##_EGlpNumAllocArray (n + 1);                                                                    \
+	lp->cz = T##_EGlpNumAllocArray (n + 1);                                                                    \
+	lp->zA.indx = (int *) calloc ((size_t) n + 1, sizeof (int));                                               \
+	lp->nbaz = (int *) calloc ((size_t) n + 1, sizeof (int));                                                  \
+	lp->vtype = (int *) calloc ((size_t) n + 1, sizeof (int));                                                 \
+	lp->vstat = (int *) calloc ((size_t) n + 1, sizeof (int));                                                 \
+	lp->zA.nzcnt = n;                                                                                          \
+	lp->zA.size = n + 1;                                                                                       \
+	for (i = 0; i < n; i++)                                                                                    \
+	{                                                                                                          \
+		lp->zA.indx[i] = i;                                                                                      \
+		lp->nbaz[i] = i;                                                                                         \
+		tok_q (q); SET (lp->zA.coef[i], q);                                                                      \
+		tok_q (q); SET (lp->dz[i], q);                                                                           \
+		tok_q (q); SET (lp->cz[i], q);                                                                           \
+		lp->vstat[i] = tok_int ();                                                                               \
+		lp->vtype[i] = tok_int () ? VFIXED : (lp->vstat[i] == STAT_ZERO ? VFREE : VLOWER);                      \
+	}                                                                                                          \
+	T##_ILLratio_dII_test (lp, lvu ? STAT_UPPER : STAT_LOWER, &rs);                                            \
+	FULL                                                                                                       \
+	T##_EGlpNumFreeArray (lp->zA.coef); T##_EGlpNumFreeArray (lp->dz); T##_EGlpNumFreeArray (lp->cz);          \
+	free (lp->zA.indx); free (lp->nbaz); free (lp->vtype); free (lp->vstat);                                   \
+	T##_EGlpNumClearVar (tol.pfeas_tol); T##_EGlpNumClearVar (tol.dfeas_tol); T##_EGlpNumClearVar (tol.pivot_tol); \
+	T##_EGlpNumClearVar (tol.szero_tol); T##_EGlpNumClearVar (tol.ip_tol); T##_EGlpNumClearVar (tol.id_tol);  \
+	T##_EGlpNumClearVar (rs.tz); T##_EGlpNumClearVar (rs.lbound); T##_EGlpNumClearVar (rs.ecoeff);            \
+	T##_EGlpNumClearVar (rs.pivotval); T##_EGlpNumClearVar (lp->upd.piv); T##_EGlpNumClearVar (lp->upd.dty);  \
+	mpq_clear (q);                                                                                             \
+}
+
+RATIO_D2 (mpq, set_q,
+	printf ("res %d %d ", rs.ratio_stat, rs.eindex); put_q (rs.tz); printf (" "); put_q (rs.pivotval);
+	printf (" %d ", rs.coeffch); put_q (rs.ecoeff); printf ("\n");)
+RATIO_D2 (mpf, set_f, printf ("res %d %d\n", rs.ratio_stat, rs.eindex);)
+
 int qsx_ratio_commands (const char *c)
 {
 	if (!strcmp (c, "ratiop2")) ratio_p2_mpq ();
@@ -98,6 +157,13 @@ int qsx_ratio_commands (const char *c)
 		int prec = tok_int ();
 		QSexact_set_precision ((unsigned) prec);
 		ratio_p2_mpf ();
+	}
+	else if (!strcmp (c, "ratiod2")) ratio_d2_mpq ();
+	else if (!strcmp (c, "ratiod2f"))
+	{
+		int prec = tok_int ();
+		QSexact_set_precision ((unsigned) prec);
+		ratio_d2_mpf ();
 	}
 	else return 0;
 	return 1;
